@@ -119,8 +119,8 @@ class HTTPProtocol(BaseGopherProtocol):
             # Link to a different server.  Make it a gopher URL.
             url = entry.geturl(self.server.server_name, 70)
 
-        # OK.  Render.
-        return self.getrenderstr(entry, url)
+        # OK.  Render.  The URL ends up inside HTML attributes.
+        return self.getrenderstr(entry, html.escape(url))
 
     def getrenderstr(self, entry, url):
         retstr = "<TR><TD>"
@@ -156,11 +156,12 @@ class HTTPProtocol(BaseGopherProtocol):
             retstr += ": " + html.escape(self.entry.getname())
         retstr += "</TITLE></HEAD><BODY>"
         if self.config.has_option("protocols.http.HTTPProtocol", "pagetopper"):
-            retstr += re.sub(
-                "GOPHERURL",
-                self.entry.geturl(self.server.server_name, self.server.server_port),
-                self.config.get("protocols.http.HTTPProtocol", "pagetopper"),
+            gopherurl = html.escape(
+                self.entry.geturl(self.server.server_name, self.server.server_port)
             )
+            retstr += self.config.get(
+                "protocols.http.HTTPProtocol", "pagetopper"
+            ).replace("GOPHERURL", gopherurl)
         retstr += "<H1>Gopher"
         if self.entry.getname():
             retstr += ": " + html.escape(self.entry.getname())
@@ -169,8 +170,8 @@ class HTTPProtocol(BaseGopherProtocol):
 
     def renderdirend(self, entry):
         retstr = '</TABLE><HR>\n[<A HREF="/">server top</A>]'
-        retstr += ' [<A HREF="%s">view with gopher</A>]' % entry.geturl(
-            self.server.server_name, self.server.server_port
+        retstr += ' [<A HREF="%s">view with gopher</A>]' % html.escape(
+            entry.geturl(self.server.server_name, self.server.server_port)
         )
         retstr += '<BR>Generated by <A HREF="https://www.github.com/michael-lazar/pygopherd">PyGopherd</A>'
         return retstr + "\n</BODY></HTML>\n"
